@@ -35,9 +35,21 @@ var T0 = time.Date(2030, 1, 1, 0, 0, 0, 0, time.UTC)
 // by a tick still fall into the same second.
 var TickUnit = 24 * time.Hour
 
-func TickTime(t int64) time.Time { return T0.Add(time.Duration(t) * TickUnit) }
+func TickTime(t int64) time.Time {
+	if TickUnit == 24*time.Hour { // no time.Duration arithmetic: it overflows beyond 106751 days
+		return T0.AddDate(0, 0, int(t))
+	}
+	return T0.Add(time.Duration(t) * TickUnit)
+}
 
 func TimeTick(t time.Time) int64 {
+	if TickUnit == 24*time.Hour {
+		s := t.Unix() - T0.Unix()
+		if s%86400 != 0 || t.Nanosecond() != 0 {
+			return -999999
+		}
+		return s / 86400
+	}
 	d := t.Sub(T0)
 	if d%TickUnit != 0 {
 		return -999999
